@@ -1017,6 +1017,8 @@ class P(Prop):
         (MA, "TV.C07.dijkstra_mode_is_session", "an object whose routing_mode is not 1 answers every call, and is left in the state, of the Dijkstra session (heuristic keeps its initial 0), whatever astar_wgt and the coordinates"),
         (MA, "TV.C07.astar_session_path_fresh", "shortest_path at any point of a session on an object with routing settings = shortest_path on a fresh network with the settings of that moment (flags of earlier searches in either mode reset); the label left on the target = shortest_distance's value"),
         (MA, "TV.C07.astar_session_dist_fresh", "shortest_distance(s,t,cut) at any point of such a session = on a fresh network with the settings of that moment"),
+        (MA, "TV.C07.astar_path_cut_sound", "A* mode, consistent heuristic smallest at the target, ANY cut-off: a returned path is a real chained route weighing the value shortest_distance reports; that value is >= the true distance and equal to it unless it exceeds the cut-off"),
+        (MA, "TV.C07.astar_session_metric_optimal", "at ANY point of a session on an object in A* mode with 0 <= astar_wgt and arcs >= astar_wgt x straight-line length: shortest_path(s,t) never diverges, is None iff t unreachable or t = s, else a feature-less track that is the chain of a real route whose weights sum to the true shortest distance = the label left on the target (nodes by id or object, output_dict or not, whatever was searched before in either mode)"),
         (MA, "TV.C07.astar_backward_settled_optimal", "A* mode, consistent heuristic: after a search stopped at its target or by a cut-off, run_routing_backward(t) for any node t != s settled before the stop returns a route realising the true distance"),
         (MA, "TV.C07.astar_session_outputs_ok", "STATE MACHINE with routing settings: in ANY sequence of setRoutingMethod / setAStarWeight / shortest_path / shortest_distance / run_routing_forward / run_routing_backward calls on one network (any astar_wgt and coordinates — the heuristic need not be consistent —, modes switched at any moment, any targets and cut-offs) the backward loop terminates and every returned track is the chain of a real route whose weights sum to the label of its last node"),
         (MA, "TV.C07.setters_touch_settings_only", "setRoutingMethod / setAStarWeight change their own attribute only: neither the node flags nor the output_dict"),
@@ -1035,8 +1037,8 @@ class P(Prop):
                        "modifications through Network.simplify / toENUCoords / toGeoCoords (they replace every edge geometry / node coordinate) are not in the model; the library has no call that removes an edge or a node",
                        "families of networks sharing their Node and Edge objects (net.sub_network(s, cut) kept and used next to net, extracts of extracts; kinds fam / fam-ex): Props/C07Family.lean proves, for ONE call on shared Node objects carrying ANY flags "
                        "(Model/GraphSharedPath.lean: shortestPathSh = routeOnPD of Model/GraphShared.lean, the loop with the explicit priority_dict resetting the network's own NODES only, then run_routing_backward), that shortest_path and a forward + backward pair answer as on private objects "
-                       "(family_path_as_private, family_backward_as_private, family_path_optimal) — antecedent / antecedent_edge included. The family as a PROGRAM with shortest_path calls is TV.GraphExt.execFamP (family_program_path_as_private: every shortest_path of any program answers for its own network's current graph). Still open: "
-                       "execFamP has no run_routing_backward call and no geometry / coordinate modification; the correspondence stream still runs ONE msession (Model/GraphMut.lean) per network, and the harness, not Lean, predicts which edges sub_network keeps (TV.Graph.subEdges has that in Lean for C06); "
+                       "(family_path_as_private, family_backward_as_private, family_path_optimal) — antecedent / antecedent_edge included. The family as a PROGRAM with shortest_path calls is TV.GraphExt.execFamP (family_program_path_as_private: every shortest_path of any program answers for its own network's current graph). The correspondence runs every family BOTH ways: as one msession (Model/GraphMut.lean) per network (every call, geometry included) and as ONE program of the Lean family model (driver fampaths: one common flag store, "
+                       "sub_network's nodes and edges computed by TV.Graph.subEdges and compared with the real extract, every shortest_path compared). Still open: execFamP has no run_routing_backward call (the attributes of a Node object no network of the family has reset yet are not modelled) and no geometry / coordinate modification; "
                        "run_routing_backward called when the routing attributes were last written by ANOTHER network of the family is run but neither compared nor judged (nothing is stated about it)",
                        "getEdge(i).orientation = x on a built network: proved NOT to be read by routing (orientation_attribute_not_read) — the property read with the current attribute fails there; proposed finding %s (findings/C07.json), its inputs are generated once it is listed" % ORI_FROZEN]
     modelled = ("Network.addNode / addEdge (NODES with first registration winning, EDGES, NEXT_EDGES filled incrementally; proved to give the model's adjacency); "
@@ -1050,7 +1052,7 @@ class P(Prop):
                 "naming unregistered / never-searched nodes; "
                 "A* MODE (Model/GraphAStar.lean, Model/GraphAStarPath.lean): Network.__init__'s routing_mode / astar_wgt, setRoutingMethod, setAStarWeight, the A* branch of run_routing_forward as it is after fix c78e3ab (label g, queue priority g + astar_wgt * fils.distanceTo(NODES[target]) when routing_mode == 1 and a target is given, else + the initial 0), "
                 "Node.distanceTo / ENUCoords.distanceTo / norm (3-D Euclidean, sqrt a parameter), shortest_path / shortest_distance / run_routing_forward / run_routing_backward as calls of a session on one object with its settings; "
-                "Network.sub_network (TOPOLOGIC) only as the calls it is made of: run_routing_forward(source, cut=cut) on the parent, then Network() + addEdge(e, e.source, e.target) for the kept edges — one model object per network of the family; the single call on shared Node objects carrying any flags is Model/GraphSharedPath.lean (see open_statements)")
+                "Network.sub_network (TOPOLOGIC) only as the calls it is made of: run_routing_forward(source, cut=cut) on the parent, then Network() + addEdge(e, e.source, e.target) for the kept edges — one model object per network of the family; AND as one program over a family with ONE common store of routing attributes (Model/GraphShared.lean execFam + Model/GraphSharedPath.lean execFamP: Network(), addNode / addEdge, searches, sub_network with the kept edges computed in Lean, Edge.weight assignment reaching every network that holds the object, shortest_path) (see open_statements)")
     trusted = ["Track.copy (copy.deepcopy) is the identity on the model's immutable values",
                "priority_dict is modelled as extract-min by (priority, node id) (C06 proves the explicit heap equal to it)"]
     rule = (("the C06 graph space (all edge lists of length <= 2 on <= 3 nodes in quick, + all 3-edge multisets in thorough; random to 12 nodes / 40 edges, parallel edges of equal and of "
@@ -1069,7 +1071,7 @@ class P(Prop):
             "compared with the model only. Orientation assignments on a built network are generated only once the finding %s is listed. "
             "FAMILIES of networks that share their Node and Edge objects (kinds fam-ex / fam): net.sub_network(s, cut) is called and its result KEPT (up to three extractions, also of extracts), and paths / distances / forward + backward passes are asked on "
             "all of them in any order — most of the time on the PARENT after an extraction, for pairs whose route runs through extracted edges —, run_routing_backward right after sub_network (the flags it left), the weight of a shared Edge "
-            "object assigned in between; every network is judged on its own content (an extract: the node / edge ids read off the returned object), whatever the other networks were asked in between. "
+            "object assigned in between; every network is judged on its own content (an extract: the node / edge ids read off the returned object), whatever the other networks were asked in between; the model side runs each family twice: one session per network, and one program of the Lean family model whose sub_network contents and shortest_path answers are compared with the real objects'. "
             "A* MODE (kind astar, float weights): nodes in a box of the integer lattice (3 to 20 wide; the altitude counts in Node.distanceTo), random pairs joined by straight or bent polylines (long chords, 0-70%% one-way, parallel edges), weights tied to the geometry — the straight length rounded up, x (1 + up to 20%%) (nearly equal routes), the polyline's length, x 1.5..3, x 0.5 (consistent only for astar_wgt <= 1/2), unrelated —; the object is switched to A* "
             "(astar_wgt default or one of 0, 0.3, 0.5, 1, 1.5, 2, also changed between calls), then up to 60 ordered pairs are asked by shortest_path (now and then shortest_distance, run_routing_forward + run_routing_backward, a cut-off, output_dict, a switch back to Dijkstra); model = Model/GraphAStarPath.lean at Float (fasession), compared bit for bit; "
             "the oracle requires optimality when the heuristic is consistent (0 <= astar_wgt, every edge >= astar_wgt x straight-line distance of its ends, exact rationals: C06's predicate) and, always, that a returned path is a real chained route weighing the reported value, None iff unreachable (no cut-off). "
@@ -2272,6 +2274,11 @@ class P(Prop):
             yield from self.shrink_fam(case)
             return
         ops = case.get("ops")
+        if ops is not None and case.get("astar") and len(ops) > 4:
+            # one query with the settings in force when it is made (the searches of a session do not depend on each other)
+            for k, o in enumerate(ops):
+                if o[0] == "P":
+                    yield dict(case, ops=[q for q in ops[:k] if q[0] in SETTINGS] + [o])
         if ops is not None:
             for k in range(len(ops)):
                 yield dict(case, ops=ops[:k] + ops[k + 1:])
